@@ -658,7 +658,15 @@ static Type *array_dimensions(Token **rest, Token *tok, Type *ty) {
 
   if (ty->kind == TY_VLA || !is_const_expr(expr))
     return vla_of(ty, expr);
-  return array_of(ty, eval(expr));
+
+  // Type.array_len and Type.size are ints: reject an array whose
+  // length or size would be truncated.
+  int64_t len = eval(expr);
+  if (len < 0)
+    error_tok(expr->tok, "array size is negative");
+  if (len > INT32_MAX || (ty->size > 0 && len > INT32_MAX / ty->size))
+    error_tok(expr->tok, "array is too large");
+  return array_of(ty, len);
 }
 
 // type-suffix = "(" func-params
